@@ -56,6 +56,13 @@ func H_C13_render() {
 	b, bLines := mk("b", lb)
 	vxrt.Assume(differs(a, b))
 	rep := prettyDiff(a, b, "", 1)
+	checkDiffReport(rep, aLines, bLines)
+}
+
+// checkDiffReport: the NO_COLOR report of two different texts: no escape sequences, header counts
+// equal the numbers of -/+ lines shown, every - line is a line of the stored text, every + line a
+// line of the received text, and taking the shown lines out of both texts leaves the same lines.
+func checkDiffReport(rep string, aLines, bLines []string) {
 	vxrt.Assert(rep != "", "C13:nonempty-for-different")
 	vxrt.Assert(!strings.Contains(rep, "\x1b"), "C13:no-escape-sequences")
 
@@ -100,6 +107,44 @@ func H_C13_render() {
 	vxrt.Assert(same, "C13:remaining-lines-equal")
 }
 
+// H_C13_render_long: two texts of 24 distinct lines that differ in two places far enough apart
+// to land in separate hunks (each place: a changed, a removed or an added line); the same checks
+// as H_C13_render, in particular the header counts cover every hunk.
+func H_C13_render_long() {
+	vxrt.EnvFixed("NO_COLOR", "1")
+	n := vxrt.Param("lines", 24)
+	p1 := 2 + vxrt.Choice("first-place", 2)
+	p2 := n - 4 + vxrt.Choice("second-place", 2)
+	k1, k2 := vxrt.Choice("first-kind", 3), vxrt.Choice("second-kind", 3)
+	var aLines, bLines []string
+	for i := 0; i < n; i++ {
+		l := "line " + itoa(i) + "\n"
+		kind := -1
+		if i == p1 {
+			kind = k1
+		} else if i == p2 {
+			kind = k2
+		}
+		switch kind {
+		case 0: // changed
+			aLines = append(aLines, l)
+			bLines = append(bLines, "changed "+itoa(i)+"\n")
+		case 1: // removed
+			aLines = append(aLines, l)
+		case 2: // added
+			aLines = append(aLines, l)
+			bLines = append(bLines, l, "added "+itoa(i)+"\n")
+		default:
+			aLines = append(aLines, l)
+			bLines = append(bLines, l)
+		}
+	}
+	a, b := strings.Join(aLines, ""), strings.Join(bLines, "")
+	rep := prettyDiff(a, b, "", 1)
+	// the texts end in a newline: the split keeps a final empty element, shown as a bare line
+	checkDiffReport(rep, append(aLines, "\n"), append(bLines, "\n"))
+}
+
 // removals returns every sequence that can be obtained from `from` by taking
 // out the lines of `shown`, in order (each as a distinct position).
 func removals(from, shown []string) [][]string {
@@ -117,4 +162,23 @@ func removals(from, shown []string) [][]string {
 		}
 	}
 	return out
+}
+
+// H_C13_collisions: lines that collide under widespread 32-bit string hashes (FNV-1a, FNV-1,
+// CRC-32, the 31-multiplier hash, djb2) are different lines: a solver cannot be expected to find
+// such pairs (multiplication chains), so the known ones are given. The report of two texts that
+// differ in exactly such a pair is not empty and shows both lines.
+func H_C13_collisions() {
+	vxrt.EnvPresent("NO_COLOR")
+	pairs := [][2]string{{"costarring", "liquid"}, {"declinate", "macallums"}, {"altarage", "zinke"}, {"creamwove", "quists"}, {"plumless", "buckeroo"}, {"Aa", "BB"}, {"hetairas", "mentioner"}, {"heliotropes", "neurospora"}}
+	p := pairs[vxrt.Choice("pair", len(pairs))]
+	x, y := p[0], p[1]
+	if vxrt.Bool("swap") {
+		x, y = y, x
+	}
+	a := "first\n" + x + "\nlast\n"
+	b := "first\n" + y + "\nlast\n"
+	rep := prettyDiff(a, b, "", 1)
+	vxrt.Assert(rep != "", "C13:empty-iff-identical")
+	vxrt.Assert(strings.Contains(rep, x) && strings.Contains(rep, y), "C13:minus-lines-are-stored-lines")
 }
